@@ -261,7 +261,7 @@ def numberEqual (l r : Value) : Except Err Bool :=
   | .ok b => .ok b
   | .error _ => .error .operandType
 
-/-- the body of `execEqual` after both sides are evaluated -/
+/-- the body of `execEqual` after both sides are evaluated = one iteration of the loop of `execEqualBatch` -/
 def equalRow (l r : Value) : Except Err Bool :=
   match l with
   | .str _ | .bytes _ =>
@@ -274,29 +274,6 @@ def equalRow (l r : Value) : Except Err Bool :=
     | .bool b => .ok (a == b)
     | _ => .error .operandType
   | _ => .error .operandType
-
-/-- what `execEqualBatch` learns from `rleft[0]` (`num`: the flag the code calls isInt) -/
-inductive EqKind | str | num | bool
-deriving DecidableEq, Repr
-
-def eqKindOf : Value → Option EqKind
-  | .str _ | .bytes _ => some .str
-  | .int _ | .goInt _ | .float _ => some .num
-  | .bool _ => some .bool
-  | _ => none
-
-/-- one iteration of the loop of `execEqualBatch` -/
-def equalBatchRow (k : EqKind) (l r : Value) : Except Err Bool :=
-  match k with
-  | .str =>
-    match convertToByteArray l, convertToByteArray r with
-    | some a, some b => .ok (a == b)
-    | _, _ => .error .operandType
-  | .num => numberEqual l r
-  | .bool =>
-    match l, r with
-    | .bool a, .bool b => .ok (a == b)
-    | _, _ => .error .operandType
 
 /-! ### the function table -/
 
